@@ -113,8 +113,13 @@ impl Conn {
 
 /// Per-invocation uid from which the uids of the messages created by a
 /// handler are derived.
-pub fn ctx_uid(uid: u64, t: T) -> u64 {
-    h3(uid, t, 0xC7)
+///
+/// The handling node is part of it: a message broadcast through plain
+/// connections reaches several models under one uid, and their reactions must
+/// not produce children with identical uids (two different sends would then be
+/// indistinguishable further down the cascade).
+pub fn ctx_uid(uid: u64, t: T, node: usize) -> u64 {
+    h3(uid, t, 0xC7 + ((node as u64) << 8))
 }
 
 /// Reply uid computed by replier `node` for request uid `uid`.
@@ -390,7 +395,7 @@ impl Node {
         if let Some(actions) = table.get(msg.kind as usize) {
             // Children are derived from (uid, time): the occurrences of a
             // periodic message share a uid but not the time they are handled at.
-            let cuid = ctx_uid(msg.uid, t);
+            let cuid = ctx_uid(msg.uid, t, self.id);
             for (i, a) in actions.iter().enumerate() {
                 self.exec(i, a, &msg, cuid, cx).await;
             }
@@ -535,7 +540,7 @@ impl Model for Node {
         rec::ev(Ev::InitBegin { node: self.id as u32, name_ok: cx.name() == expected && !overlap });
         let msg = Msg { uid: sh.spec.init_uid(self.id), kind: INIT_KIND, ttl: sh.spec.ttl, tok: Tok::new(&sh.ledger) };
         let actions = sh.spec.nodes[self.id].init.clone();
-        let cuid = ctx_uid(msg.uid, sh.spec.start);
+        let cuid = ctx_uid(msg.uid, sh.spec.start, self.id);
         for (i, a) in actions.iter().enumerate() {
             self.exec(i, a, &msg, cuid, cx).await;
         }
